@@ -252,9 +252,9 @@ def run(ctx):
     # every (work-start variant) x (signal variant) for the SAME run ID, in both orders, with the step finishing
     # before / after the signal and before / after the end of input: two-message interactions the random grammar
     # only reaches by luck (e.g. a rejected work-start followed by a valid signal for that run)
-    ws_kinds = [("ok", ""), ("declared_error", ""), ("panic", ""), ("err", ""), ("baddata", ""), ("ok", "unknown_step"), ("ok", "bad_input"),
+    ws_kinds = [("ok", ""), ("declared_error", ""), ("panic", ""), ("err", ""), ("baddata", ""), ("ok", "unknown_step"), ("ok", "bad_input"), ("ok", "nil_key_input"),
                 ("panic_int", ""), ("panic_err", ""), ("panic_struct", ""), ("panic_nilmap", "")]
-    sig_kinds = ["", "unknown_signal", "bad_data"]
+    sig_kinds = ["", "unknown_signal", "bad_data", "nil_key", "nil_only_key"]
     for wi, (be, va) in enumerate(ws_kinds):
         for sv in sig_kinds:
             ws = dict(op="send", kind="ws", run="r2", beh=be, variant=va)
